@@ -1,8 +1,8 @@
 ------------------------------- MODULE CloseTrace -------------------------------
 (* Trace specification (binding V) for C13. One scenario = reset, close_call, close_ret | close_stuck, after.   *)
 (* The phases mirror Close.tla's pc: run -> closing -> closed -> checked.                                        *)
-(*   close_ret.ms <= BoundMs      Close returned within the bound (virtual time; the configured timeouts of the  *)
-(*                                driver sum to well under it: leave-group timeout, request timeouts, 1 s grace)   *)
+(*   close_ret.ms <= BoundMs + user_ms  Close returned within the bound (virtual time; the configured timeouts of the  *)
+(*                                driver sum to well under it) plus the time user partitioner calls slept meanwhile *)
 (*   after.promised = produced    every produce promise was called (exactly once: the driver counts calls)        *)
 (*   after.poll = ErrClientClosed; a produce issued after Close has its promise called with an error               *)
 (*   after.kgo_goroutines = 0     Close.tla's NothingRunning                                                       *)
@@ -15,7 +15,7 @@ Init == l = 1 /\ phase = "none" /\ traces = 0
 Ev == TraceLog[l]
 Checks(e) ==
   CASE e.ev = "close_call" -> << <<phase = "run", "close_call out of order">> >>
-    [] e.ev = "close_ret" -> << <<phase = "closing", "close_ret out of order">>, <<e.ms <= BoundMs, "Close returned only after the bound">> >>
+    [] e.ev = "close_ret" -> << <<phase = "closing", "close_ret out of order">>, <<e.ms <= BoundMs + e.user_ms, "Close returned only after the bound (plus the time user partitioner calls ran meanwhile)">> >>
     [] e.ev = "close_stuck" -> << <<FALSE, "Close did not return (10 virtual minutes)">> >>
     [] e.ev = "after" -> << <<phase = "closed", "after out of order">>,
                             <<e.promised >= e.produced, "a produce promise was never called after Close">>,
